@@ -146,7 +146,8 @@ def c20(ctx, spec):
 def c13(ctx, spec):
     import subprocess
     types = (0, 1) if ctx.tier == 'quick' else (0, 1, 2, 3)
-    builds = [dict(name='c13_g%d_t%d' % (g, t), src='harness/c13_blas.cpp', cfg='asan_noleak', defs=['C13_G=%d' % g, 'C13_T=%d' % t], libs=['-lopenblas'], env={'OPENBLAS_NUM_THREADS': '1'}, may_fail=(g == 2 and t == 3)) for g in (1, 2, 3, 4) for t in types]
+    pairs = [(g, t) for g in (1, 2, 3, 4) for t in types] + ([(1, 2), (1, 3), (4, 2), (4, 3)] if ctx.tier == 'quick' else [])  # quick: the single-precision types for level 1 / gemv and the lazy forms too (cheap groups)
+    builds = [dict(name='c13_g%d_t%d' % (g, t), src='harness/c13_blas.cpp', cfg='asan_noleak', defs=['C13_G=%d' % g, 'C13_T=%d' % t], libs=['-lopenblas'], env={'OPENBLAS_NUM_THREADS': '1'}, may_fail=(g == 2 and t == 3)) for (g, t) in pairs]
     if ctx.tier == 'thorough': builds += [dict(name='c13vg_g%d_t%d' % (g, t), src='harness/c13_blas.cpp', cfg='vg', defs=['C13_G=%d' % g, 'C13_T=%d' % t], libs=['-lopenblas']) for g in (1, 3, 4) for t in (0, 1)]
     ctx.build(builds)
     for b in builds:
